@@ -1300,6 +1300,31 @@ theorem num_f64_error_check_true (e : Nat) (l : List F64) (hc : inErrClass e l =
   · obtain ⟨a, b, c⟩ := hv (by omega)
     exact Or.inr ⟨a, b, c⟩
 
+/-- THE SAME FOR DATA OF ANY SCALE: `agg numerr` with a NEGATIVE exponent (`M = 2^e`, `-538 ≤ e < 0`, `j = 1074 + e`)
+evaluates `numErrCheckJ`, whose tolerances are `num_f64_mean_error` / `num_f64_variance_error_scaled` at `M = 2^(j − 1074)` –
+proportional to the scale of the data (`u·M`, `u·M²`), so an error that is small against 1 but large against the samples
+(readings like 0.0003 ± 0.0001) is a `0` flag.  All three flags are `true` on the whole class `inErrClassJ`
+(`536 ≤ j ≤ 1554`, which also covers the exponents `0 … 480` of `num_f64_error_check_true`). -/
+theorem num_f64_error_check_scaled_true (j : Nat) (l : List F64) (hc : inErrClassJ j l = true)
+    (hn : l.length ≤ 9007199254740992) : numErrCheckJ j l = (true, true, true) := by
+  unfold inErrClassJ at hc
+  simp only [Bool.and_eq_true, decide_eq_true_eq, Bool.not_eq_true', List.all_eq_true] at hc
+  obtain ⟨⟨⟨h1, h2⟩, hne⟩, hall⟩ := hc
+  have hne' : l ≠ [] := by intro h; rw [h] at hne; simp at hne
+  have hl : ∀ x ∈ l, x.isFinite = true ∧ -(scaleOf j) ≤ x.toRat ∧ x.toRat ≤ scaleOf j :=
+    fun x hx => ⟨(hall x hx).1.1, (hall x hx).1.2, (hall x hx).2⟩
+  have hcls := magClass_scaled j h1 h2
+  have hM : scaleOf j ≤ ((2 ^ 1021 : Nat) : Rat) := by rw [← bigB_eq]; exact hcls.le
+  obtain ⟨_, mf, _, _, m1, m2'⟩ := num_f64_mean_error false _ hM l hne' hn hl
+  obtain ⟨vf, _, _, v1, v2⟩ := var_acc_error_gen false _ hcls l hne' hn hl
+  unfold numErrCheckJ within meanErrBound m2ErrBound varianceErrBound
+  simp only [Prod.mk.injEq, Bool.and_eq_true, Bool.or_eq_true, decide_eq_true_eq]
+  refine ⟨⟨mf, m1, m2'⟩, ⟨vf, v1, v2⟩, ?_⟩
+  by_cases h2' : l.length < 2
+  · exact Or.inl h2'
+  · obtain ⟨a, b, c⟩ := variance_acc_error_gen false _ hcls l (by omega) hn hl
+    exact Or.inr ⟨a, b, c⟩
+
 /-- `StdDev()` = `math.Sqrt(Variance())`, FOR EVERY SAMPLE LIST.  The software `F64.sqrt` (compared bit for bit with
 `math.Sqrt` by `agg numf` / `numfv`) takes the integer square root `s` of the scaled argument by Newton's iteration –
 proved correct for every natural number (`F64.isqrt_spec`: `s² ≤ N < (s+1)²`, the fuel always suffices) – and rounds once.
@@ -1432,6 +1457,8 @@ example : IsSortedF false [F64.nan, F64.zero true, F64.zero false, F64.ofInt 1] 
 example : (runFv false [F64.inf false, F64.inf false]).min = F64.inf false := by decide +kernel
 example : (runFv false [F64.neg maxF64, maxF64]).mean = F64.inf false := by decide +kernel
 example : inErrClass 0 [F64.ofRat (1/10), F64.ofRat (2/10), F64.ofRat (3/10)] = true := by decide +kernel
+/-- j = 1064 (M = 2^-10): 0.0001, 0.0002, 0.0003 are in the scaled class of `num_f64_error_check_scaled_true`. -/
+example : inErrClassJ 1064 [F64.ofRat (1/10000), F64.ofRat (2/10000), F64.ofRat (3/10000)] = true := by decide +kernel
 /-- hypotheses of `num_f64_variance_error_scaled` with j = 1064 (M = 2^-10) on 0.0001, 0.0002, 0.0003. -/
 example : ∀ x ∈ [F64.ofRat (1/10000), F64.ofRat (2/10000), F64.ofRat (3/10000)],
     x.isFinite = true ∧ -(((2 ^ 1064 : Nat) : Rat) / F64.two1074) ≤ x.toRat ∧
